@@ -666,6 +666,52 @@ def traversal(ctx):
                                 if c_.get("k") == "ctor" and callee(c_).endswith("Option::Some"):
                                     cb, cms = chain(resolve(c_["args"][0]))
                                     rec.append([m_[0] for m_ in cms] == ["len"] and child_vec is not None and is_local(cb, child_vec))
+                    if init is None:
+                        # the count comes out of a destructured value: `let (e, n) = match entry { Combine(e, n) => (e, n), Expand(e) => { ..; (e, 0) } }`
+                        d_ = defs.get(c1) or defs.get(canon(c1))
+                        if d_ and d_[0] == "let" and "init" in d_[1]:
+                            pt_ = d_[1]["pat"]
+                            while pt_.get("k") in ("pref", "pderef"):
+                                pt_ = pt_["pat"]
+                            pos_ = None
+                            if pt_.get("k") == "ptuple":
+                                for i_, sp_ in enumerate(pt_["subs"]):
+                                    if any(canon(bi) == canon(c1) for _, bi in pat_bindings(sp_)):
+                                        pos_ = i_
+                            if pos_ is not None:
+                                good, seen_entry = True, False
+                                for cs_, leaf in norm_.value_alternatives(d_[1]["init"]):
+                                    leaf = peel(leaf)
+                                    if not (leaf.get("k") == "tuple" and len(leaf["es"]) > pos_):
+                                        good = False
+                                        break
+                                    comp = resolve(peel(leaf["es"][pos_]))
+                                    if comp.get("k") == "local" and any(c_.get("k") == "armpat" and pol and any(canon(bi) == canon(comp["id"]) for _, bi in pat_bindings(c_["pat"])) and
+                                                                        any(is_local(c_["scrut"], p_) for p_ in popped) for c_, pol in cs_):
+                                        seen_entry = True         # the count recorded in the popped entry
+                                        continue
+                                    if comp.get("k") == "lit" and comp.get("v") == 0 and child_vec is not None and any(
+                                            pol and c_.get("k") == "mcall" and c_["name"] == "is_empty" and is_local(c_["recv"], child_vec) for c_, pol in cs_ + norm_.path_conditions(ix, leaf)):
+                                        continue                  # no children were requested: zero values
+                                    cb_, cms_ = chain(comp)
+                                    if [m_[0] for m_ in cms_] == ["len"] and child_vec is not None and is_local(cb_, child_vec):
+                                        continue
+                                    good = False
+                                from_entry = good and seen_entry
+                                init = d_[1]["init"]
+                    if rec == []:
+                        # entries that are constructors (`Visit::Combine(e, children.len())`) instead of tuples
+                        for n in ix.nodes:
+                            if n.get("k") == "mcall" and n["name"] == "push" and is_local(n["recv"], todo_id):
+                                t = peel(n["args"][0])
+                                if t.get("k") == "ctor" and len(t.get("args", [])) >= 2:
+                                    for a_ in t["args"]:
+                                        a0 = resolve(a_)
+                                        if a0.get("k") == "ctor" and callee(a0).endswith("Option::Some") and a0.get("args"):
+                                            a0 = resolve(a0["args"][0])
+                                        cb, cms = chain(a0)
+                                        if [m_[0] for m_ in cms] == ["len"]:
+                                            rec.append(child_vec is not None and is_local(cb, child_vec))
                     ok = (not static) and from_entry and rec == [True]
                     why = "the number of values taken is `%s`%s" % (show(init)[:60] if init is not None else "?", " (the node's static child count, although get_children may have returned fewer)" if static else "")
         ctx.inst("R20.6", "%s:values-of-visited-children-only" % name, ok, f["span"], "%s: %s - for a node whose children were (partly) not visited the values of other nodes are consumed or the stack index underflows" % (name, why), sample=why)
